@@ -16,10 +16,12 @@ fn run_case(fam: &str, args: &[i128]) -> Vec<i128> {
     match fam {
         "adjustable" => adjustable::run(args),
         "csm" => csm::run(args),
+        "csmconc" => csm::run_conc(args),
         "causal" => causal::run(args, 1),
         "causalrm" => causal::run_rm(args, 1, true),
         "causalrm2" => causal::run_rm2(args, 1, true, true),
         "causalconc" => causal::run_conc(args),
+        "causalbig" => causal::run_big(args),
         f if f.starts_with("causal_") => causal::run(args, f[7..].parse().unwrap()),
         "collections" => collections::run(args),
         "context" => context::run(args),
@@ -28,6 +30,7 @@ fn run_case(fam: &str, args: &[i128]) -> Vec<i128> {
         f if f.starts_with("ugraph_") => ugraph::run(args, f[7..].parse().unwrap()),
         f if f.starts_with("ugraphc_") => ugraph::run_c(args, f[8..].parse().unwrap(), true),
         f if f.starts_with("spath_") => ugraph::run_spath(args, f[6..].parse().unwrap()),
+        f if f.starts_with("spathq_") => ugraph::run_spathq(args, f[7..].parse().unwrap()),
         _ => panic!("unknown family {fam}"),
     }
 }
